@@ -285,7 +285,7 @@ class Fn(object):
         c = B.tcond
         if t['k'] == 'BinaryOperator' and t.get('op') in ('&&', '||'):
             return (c, False)  # clang gives the LHS
-        here = set(e['n'] for e in B.elems if 'n' in e)
+        here = self.pos          # a logical operator that is a CFG element anywhere was materialised as a value
         while True:
             s = self.strip(c)
             n = self.nodes[s]
@@ -535,14 +535,17 @@ class Fn(object):
     # a state is (block, tag) with tag 'T'/'F' (value forced by the short-circuit edge taken),
     # 'R' (arrived after evaluating the RHS) or None.
     def _confluence(self, bid):
+        """logical-operator node whose materialised value block `bid` branches on, else None"""
         if not hasattr(self, '_conf'):
             self._conf = {}
+            self._join = {}
             for B in self.blocks.values():
                 lc = self.leaf_cond(B)
                 if lc and not lc[1]:
                     n = self.nodes[lc[0]]
-                    if n['k'] == 'BinaryOperator' and n.get('op') in ('&&', '||') and any(e.get('n') == lc[0] for e in B.elems):
+                    if n['k'] == 'BinaryOperator' and n.get('op') in ('&&', '||') and lc[0] in self.pos:
                         self._conf[B.id] = lc[0]
+                        self._join[self.pos[lc[0]][0]] = lc[0]
         return self._conf.get(bid)
 
     def _eval3(self, node, leaf, val):
@@ -569,33 +572,40 @@ class Fn(object):
             return None
         return None
 
-    def _arrival_tag(self, b, s, lab):
-        L = self._confluence(s)
-        if L is None:
+    def _arrival_tag(self, b, s, lab, tag):
+        """tag carried into block s: (L, 'T'|'F'|'R') while the value of logical operator L is pending"""
+        self._confluence(s)
+        L = self._join.get(s)
+        if L is not None:
+            B = self.blocks[b]
+            if B.term is not None and lab in (True, False):
+                t = self.nodes[B.term]
+                if t['k'] == 'BinaryOperator' and t.get('op') in ('&&', '||') and (B.term == L or self.contains(L, B.term)):
+                    lc = self.leaf_cond(B)
+                    if lc:
+                        v = self._eval3(L, self.strip(lc[0]), lab)
+                        if v is True:
+                            return (L, 'T')
+                        if v is False:
+                            return (L, 'F')
+                        return None
+            return (L, 'R')
+        # leaving the block that tested the pending value clears the tag; otherwise it is carried along
+        if tag is not None and self._confluence(b) == tag[0]:
             return None
-        B = self.blocks[b]
-        if B.term is not None and lab in (True, False):
-            t = self.nodes[B.term]
-            if t['k'] == 'BinaryOperator' and t.get('op') in ('&&', '||') and (B.term == L or self.contains(L, B.term)):
-                lc = self.leaf_cond(B)
-                if lc:
-                    v = self._eval3(L, self.strip(lc[0]), lab)
-                    if v is True:
-                        return 'T'
-                    if v is False:
-                        return 'F'
-                    return None
-        return 'R'
+        return tag
 
     def state_succ(self, b, tag):
         """[(succ block, label, succ tag)] from state (b, tag)"""
         out = []
+        L = self._confluence(b)
+        forced = tag[1] if (tag is not None and L is not None and tag[0] == L) else None
         for (s, lab) in self.succ_edges(b):
-            if tag == 'T' and lab is False:
+            if forced == 'T' and lab is False:
                 continue
-            if tag == 'F' and lab is True:
+            if forced == 'F' and lab is True:
                 continue
-            out.append((s, lab, self._arrival_tag(b, s, lab)))
+            out.append((s, lab, self._arrival_tag(b, s, lab, tag)))
         return out
 
     def edge_facts(self, frm, to_label, tag=None):
@@ -604,7 +614,7 @@ class Fn(object):
         if lc is None or lc[1] or to_label not in (True, False):
             return []
         facts = self.cond_facts(lc[0], to_label)
-        if tag == 'R' and self._confluence(frm) is not None:
+        if tag is not None and tag[1] == 'R' and self._confluence(frm) == tag[0]:
             n = self.nodes[lc[0]]
             if (n['op'] == '&&' and to_label is False) or (n['op'] == '||' and to_label is True):
                 facts = facts + self.cond_facts(n['ch'][1], to_label)
@@ -660,7 +670,8 @@ class Fn(object):
         """edges (from,to,label,tag) whose implied facts satisfy pred(atom, polarity)"""
         out = []
         for B in self.blocks.values():
-            tags = [None] if self._confluence(B.id) is None else [None, 'T', 'F', 'R']
+            L = self._confluence(B.id)
+            tags = [None] if L is None else [None, (L, 'T'), (L, 'F'), (L, 'R')]
             for tag in tags:
                 for (s, lab, _) in self.state_succ(B.id, tag):
                     for (atom, pol) in self.edge_facts(B.id, lab, tag):
